@@ -1,163 +1,22 @@
-import Fuota.Model.Hex
-import Fuota.Model.Layout
-import Fuota.Model.Recon
+import Fuota.Drv.D3
+import Fuota.Drv.D1
 /-! Line-protocol driver: one query per input line, one canonical answer per output line.
-    Imports the model files only (no Mathlib), so it links as a native executable. -/
-open Fuota Fuota.Hex Fuota.Layout
-
+    Imports the model files only (no Mathlib), so it links as a native executable.
+    Each suite's handlers live in `Fuota/Drv/<suite>.lean`; the first one that recognises a line answers it. -/
 namespace Drv
 
-def codecOf (s : String) : Codec := if s = "orig" then Codec.orig else Codec.new
-
-def kindIdx : Kind → Nat | .firmware => 0 | .parity => 1
-def extIdx : Ext → Nat | .inProgress => 0 | .aborted => 1 | .complete => 2
-def intIdx : IntSt → Nat | .inProgress => 0 | .complete => 1
-def bootIdx : Boot → Nat | .untested => 0 | .successful => 1 | .unsuccessful => 2
-
-def optNat : Option Nat → String | none => "none" | some v => toString v
-
-def fld (c : Codec) (f : String) (w : Nat) : String :=
-  match f with
-  | "kind" => optNat ((parseKind c w).map kindIdx)
-  | "seq" => optNat (parseSeq c w)
-  | "size" => optNat (parseSize c w)
-  | "nseg" => optNat (parseNseg c w)
-  | "ext" => optNat ((parseExt c w).map extIdx)
-  | "int" => optNat ((parseInt c w).map intIdx)
-  | "boot" => optNat ((parseBoot c w).map bootIdx)
-  | _ => "bad-op"
-
-def enc (c : Codec) (f : String) (i : Nat) : String :=
-  match f, i with
-  | "kind", 0 => toString (encKind c .firmware) | "kind", 1 => toString (encKind c .parity)
-  | "ext", 0 => toString (encExt c .inProgress) | "ext", 1 => toString (encExt c .aborted)
-  | "ext", 2 => toString (encExt c .complete)
-  | "int", 0 => toString (encInt c .inProgress) | "int", 1 => toString (encInt c .complete)
-  | "boot", 0 => toString (encBoot c .untested) | "boot", 1 => toString (encBoot c .successful)
-  | "boot", 2 => toString (encBoot c .unsuccessful)
-  | _, _ => "bad-op"
-
-def hdr (c : Codec) (bs : List Nat) : String :=
-  match parseHeader c bs with
-  | none => "none"
-  | some (h, rest) =>
-    s!"some k={kindIdx h.kind} seq={h.seq} sz={h.size} n={h.n} e={extIdx h.ext} i={intIdx h.ist} b={bootIdx h.boot} rest={rest.length} enc={toHex (encodeHeader c h)} encrest=Some(0)"
-
-def ts (c : Codec) (bs : List Nat) : String :=
-  match parseHeader c bs with
-  | none => "none"
-  | some (h, _) => (totalStatus h).name
-
-/-- observable classification of a header in slot 0 (see harness `new_classify`) -/
-def cls (bs : List Nat) : String :=
-  let c := Codec.new
-  let seq := match takeU32 (bs.drop 4) with | some (w, _) => w | none => 0
-  let ph := parseHeader c bs
-  let bl := match ph with
-    | some (h, _) =>
-      if h.kind = Kind.firmware then
-        match totalStatus h with
-        | .bootloadWriteInProgress => "copy0"
-        | .firstBootPendingAck => "unack0"
-        | _ => "idle"
-      else "idle"
-    | none => "idle"
-  let fb := match ph with
-    | some (h, _) => if totalStatus h = TotalStatus.confirmedImage then "some" else "none"
-    | none => "none"
-  let rem :=
-    if seq ≤ 0xFFFFFFF0 then
-      match ph with
-      | none => "sess:keep"
-      | some (h, _) =>
-        match totalStatus h with
-        | .appWriteInProgress => s!"sess:w{Consts.EXT_OFFSET}:{toHex (writeU32 (encExt c .aborted))}"
-        | .bootloadWriteInProgress | .invalidNeedsErase => "sess:erase"
-        | _ => "sess:keep"
-    else "skip"
-  s!"bl={bl} fb={fb} rem={rem}"
-
-def mark (name : String) : String :=
-  let c := Codec.new
-  let w (off v : Nat) := s!"true W{off}:{toHex (writeU32 v)}"
-  match name with
-  | "aborted" => w Consts.EXT_OFFSET (encExt c .aborted)
-  | "complete" => w Consts.EXT_OFFSET (encExt c .complete)
-  | "int" => w Consts.INT_OFFSET (encInt c .complete)
-  | "ok" => w Consts.BOOT_OFFSET (encBoot c .successful)
-  | "bad" => w Consts.BOOT_OFFSET (encBoot c .unsuccessful)
-  | _ => "bad-op"
-
-/-! ### D1: reconstructor -/
-def bytesToNat : List Nat → Nat
-  | [] => 0
-  | b :: bs => b + 256 * bytesToNat bs
-
-def natToBytes (v : Nat) : Nat → List Nat
-  | 0 => []
-  | k + 1 => v % 256 :: natToBytes (v / 256) k
-
-partial def natToBytesTrim (v : Nat) : List Nat := if v = 0 then [] else v % 256 :: natToBytesTrim (v / 256)
-
-structure ReconSt where
-  s : Recon.St := { n := 0, bs := 0 }
-  rows : Array Nat := #[]
-  vbits : Nat := 0
-  numRows : Nat := 0
-
-def ReconSt.P (r : ReconSt) (m : Nat) : Nat :=
-  if m < r.s.n then 2 ^ m else if r.rows.size = 0 then 0 else r.rows[(m - r.s.n) % r.rows.size]!
-
-def callStr (bs : Nat) : Recon.Call → String
-  | .dStore m d => s!"dS{m}:{toHex (natToBytes d bs)}"
-  | .dGet m => s!"dG{m}"
-  | .pStore m d => s!"pS{m}:{toHex (natToBytes d bs)}"
-  | .pGet m => s!"pG{m}"
-  | .mSet m r => s!"mS{m}:{toHex (natToBytes r (m / 8 + 1))}"
-  | .mRow m => s!"mR{m}"
-
-def resStr : Recon.Res → String
-  | .needMore => "NeedMore" | .tooMany => "TooManyMissing" | .done k => s!"Done({k})"
-  | .err .data => "Err(data)" | .err .parity => "Err(parity)" | .err .matrix => "Err(matrix)" | .panic => "PANIC"
-
-def reconBlk (V : Recon.Variant) (r : ReconSt) (idx : Nat) (bytes : List Nat) (fault : Option Nat) : ReconSt × String :=
-  let c0 := r.s.calls
-  let F : Nat → Bool := match fault with | none => Recon.noFault | some k => fun c => c == c0 + k
-  let (s1, res) := Recon.handleBlock V F r.P r.vbits r.numRows r.s idx (bytesToNat bytes) bytes.length
-  let newCalls := (s1.log.take (s1.calls - c0)).reverse
-  let cs := if newCalls.isEmpty then "-" else ",".intercalate (newCalls.map (callStr s1.bs))
-  ({ r with s := s1 },
-   s!"res={resStr res} ; calls={cs} ; l={s1.l} ; done={toHex (natToBytesTrim s1.done)} ; used={toHex (natToBytesTrim s1.used)}")
-
-def reconEnd (r : ReconSt) : String :=
-  let ds := (List.range r.s.n).map fun i =>
-    match r.s.ds.lookup i with
-    | some v => toHex (natToBytes v r.s.bs)
-    | none => "?"
-  "ds=" ++ ",".intercalate ds
-
-/-- driver state (grows with the stateful suites) -/
 structure St where
-  variant : Recon.Variant := { bitBeforeStore := true }
-  recon : ReconSt := {}
+  d1 : D1.S := {}
 
 def step (st : St) (line : String) : St × String :=
-  match line.trimAscii.toString.splitOn " " with
-  | ["fld", c, f, w] => (st, match w.toNat? with | some w => fld (codecOf c) f w | none => "bad-op")
-  | ["enc", c, f, i] => (st, match i.toNat? with | some i => enc (codecOf c) f i | none => "bad-op")
-  | ["hdr", c, h] => (st, hdr (codecOf c) (fromHex h))
-  | ["ts", c, h] => (st, ts (codecOf c) (fromHex h))
-  | ["cls", _, h] => (st, cls (fromHex h))
-  | ["mark", n] => (st, mark n)
-  | ["new", "recon", n, bs, vb, cap] =>
-    ({ st with recon := { s := { n := n.toNat!, bs := bs.toNat! }, vbits := vb.toNat!, numRows := cap.toNat! } }, "ok")
-  | ["row", h] => ({ st with recon := { st.recon with rows := st.recon.rows.push (bytesToNat (fromHex h)) } }, "ok")
-  | ["orig", _] => (st, "ok")
-  | ["blk", i, h] => let (r, o) := reconBlk st.variant st.recon i.toNat! (fromHex h) none; ({ st with recon := r }, o)
-  | ["blk", i, h, f] =>
-    let (r, o) := reconBlk st.variant st.recon i.toNat! (fromHex h) ((f.drop 1).toNat?); ({ st with recon := r }, o)
-  | ["end"] => (st, reconEnd st.recon)
-  | _ => (st, if line.startsWith "!" then "-" else "bad-op")
+  let toks := line.trimAscii.toString.splitOn " "
+  if line.startsWith "!" then (st, "-") else
+  match D3.step toks with
+  | some o => (st, o)
+  | none =>
+  match D1.step st.d1 toks with
+  | some (s, o) => ({ st with d1 := s }, o)
+  | none => (st, "bad-op")
 
 partial def loop (h : IO.FS.Stream) (out : IO.FS.Stream) (st : St) : IO Unit := do
   let line ← h.getLine
@@ -172,4 +31,4 @@ def main (args : List String) : IO Unit := do
   let stdin ← IO.getStdin
   let stdout ← IO.getStdout
   let fixed := args.contains "--recon-store-first"
-  Drv.loop stdin stdout { variant := { bitBeforeStore := !fixed } }
+  Drv.loop stdin stdout { d1 := { variant := { bitBeforeStore := !fixed } } }
